@@ -266,6 +266,7 @@ func PropC04(c *vs.Case, f Factory) error {
 		if c.Prob(1, 3) {
 			coOwnerAt = c.Int(10)
 		}
+		recheckFault := c.Prob(1, 5)
 		count := 0
 		inNested := false
 		env.W.Sim.Before = func(r *vs.Request) *vs.Fault {
@@ -274,6 +275,11 @@ func PropC04(c *vs.Case, f Factory) error {
 			}
 			idx := count
 			count++
+			if recheckFault && r.Verb == "get" && r.Def.Resource == scn.Cfg.ParentResource {
+				// the uncached re-read of the parent before an adoption is answered 503
+				c.Class("parent-recheck-answered-503")
+				return &vs.Fault{Code: 503, Reason: "ServiceUnavailable", Message: "injected"}
+			}
 			if idx == coOwnerAt && r.Name != "" && r.Def.Resource != scn.Cfg.ParentResource && (r.Verb == "get" || r.Verb == "update") {
 				ns := r.Namespace
 				if _, err := env.W.Sim.ExtUpdate(r.Def.Resource, ns, r.Name, func(obj map[string]any) {
